@@ -77,6 +77,7 @@ def run_tlc(
     name=None,
     depth_first=False,
     max_heap="12g",
+    wrapper=None,  # text of a generated wrapper module named `module` (EXTENDS / INSTANCE specs from spec/)
 ):
     """Run TLC on spec/<module>.tla with the given cfg text. Returns TLCResult.
 
@@ -91,13 +92,18 @@ def run_tlc(
         f.write(cfg_text)
         if not deadlock and "CHECK_DEADLOCK" not in cfg_text:
             f.write("\nCHECK_DEADLOCK FALSE\n")
-    spec_path = os.path.join(SPEC_DIR, module + ".tla")
+    if wrapper is not None:
+        spec_path = os.path.join(run_dir, module + ".tla")
+        with open(spec_path, "w") as f:
+            f.write(wrapper)
+    else:
+        spec_path = os.path.join(SPEC_DIR, module + ".tla")
     if not os.path.exists(spec_path):
         raise MachineryError("no such spec " + spec_path)
     if workers is None:
         workers = int(os.environ.get("VERIF_TLC_WORKERS", "0")) or min(16, os.cpu_count() or 4)
     jopts = ["-XX:+UseParallelGC", "-Xmx" + max_heap, "-Dtlc2.tool.fp.FPSet.impl=tlc2.tool.fp.OffHeapDiskFPSet"]
-    jopts = ["-XX:+UseParallelGC", "-Xmx" + max_heap]
+    jopts = ["-XX:+UseParallelGC", "-Xmx" + max_heap, "-DTLA-Library=" + SPEC_DIR]
     if depth_first:
         jopts.append("-Dtlc2.tool.queue.IStateQueue=StateDeque")
     cmd = ["java"] + jopts + ["-cp", JAR, "tlc2.TLC"]
@@ -126,7 +132,7 @@ def run_tlc(
     res.cmd = " ".join(cmd[cmd.index("tlc2.TLC") :])
     t0 = time.time()
     try:
-        p = subprocess.run(cmd, cwd=SPEC_DIR, env=env, stdout=subprocess.PIPE, stderr=subprocess.STDOUT, timeout=timeout, text=True)
+        p = subprocess.run(cmd, cwd=(run_dir if wrapper is not None else SPEC_DIR), env=env, stdout=subprocess.PIPE, stderr=subprocess.STDOUT, timeout=timeout, text=True)
     except subprocess.TimeoutExpired:
         raise MachineryError("TLC timed out after %ds on %s" % (timeout, name))
     res.wall = time.time() - t0
